@@ -4,6 +4,7 @@ package main
 // and the by-name stub kinds (noop / opaque / nondet / uf).
 
 import (
+	"crypto/sha256"
 	"fmt"
 	"go/types"
 	"sort"
@@ -1077,6 +1078,15 @@ func (in *interp) runStub(fr *frame, fi *fnInfo, args []value) value {
 				}
 				if isString(t) {
 					return sb.String()
+				}
+				if at, isArr := t.Underlying().(*types.Array); isArr {
+					// fixed-size result (an address / hash): a digest of the canonical rendering
+					sum := sha256.Sum256([]byte(sb.String()))
+					arr := make(array, at.Len())
+					for k := range arr {
+						arr[k] = in.ts.BV(uint64(sum[k%32]), 8)
+					}
+					return arr
 				}
 				return in.zero(t)
 			})
